@@ -47,6 +47,69 @@ func rulesC01(c *Ctx) {
 	ruleIdTieBreak(c, "C01.TIEBREAK", c.P.SSAFunc(c.P.Method("boltz", "BaseStore", "newRowComparator")))
 	ruleC01TimeEquality(c)
 	ruleC01NotOutermost(c)
+	ruleC01Literal(c)
+}
+
+// ruleC01Literal: the type of a number constant is decided by how the literal is written: the parse
+// listener builds an Int64ConstNode only from what strconv.ParseInt accepted (or a fixed marker constant)
+// and a Float64ConstNode only from what strconv.ParseFloat returned.  The comparison type for untyped
+// (map) symbols is taken from the constant, so a float literal turned into an integer constant loses the
+// int-to-float coercion.
+func ruleC01Literal(c *Ctx) {
+	p := c.P
+	lst := p.Named("ast", "ToBoltListener")
+	want := map[*types.Var]*types.Func{
+		p.Field("ast", "Int64ConstNode", "value"):   p.ExtFunc("strconv", "ParseInt"),
+		p.Field("ast", "Float64ConstNode", "value"): p.ExtFunc("strconv", "ParseFloat"),
+	}
+	n := 0
+	for _, fn := range c.prodFuncs("ast") {
+		root := fn
+		for root.Parent() != nil {
+			root = root.Parent()
+		}
+		if root.Signature.Recv() == nil || namedOf(root.Signature.Recv().Type()) != lst {
+			continue
+		}
+		for _, b := range fn.Blocks {
+			for _, in := range b.Instrs {
+				st, ok := in.(*ssa.Store)
+				if !ok {
+					continue
+				}
+				f, _ := fieldOfAddr(st.Addr)
+				var src *types.Func
+				found := false
+				for fv, pf := range want {
+					if sameVar(f, fv) {
+						src, found = pf, true
+					}
+				}
+				if !found {
+					continue
+				}
+				n++
+				key := FnName(fn) + ": " + f.Name() + " of " + namedOf(derefType(st.Addr.(*ssa.FieldAddr).X.Type())).Obj().Name()
+				okv := false
+				why := ""
+				switch v := st.Val.(type) {
+				case *ssa.Const:
+					okv, why = true, "a fixed marker constant"
+				case *ssa.Extract:
+					if call, isCall := v.Tuple.(*ssa.Call); isCall && v.Index == 0 && isCallTo(call, src) {
+						okv, why = true, "result #0 of "+shortObj(src)
+					}
+				}
+				if okv {
+					c.OK("C01.LITERAL", key, p.Pos(st.Pos()), "the constant's value is "+why+": the literal's written form decides the constant's type")
+				} else {
+					c.Bad("C01.LITERAL", key, p.Pos(st.Pos()), "the parse listener builds this constant from "+describeValue(st.Val)+" instead of the result of "+shortObj(src)+": a literal is given a type its written form does not have, and comparisons against untyped (map) symbols dispatch on the constant's type")
+				}
+			}
+		}
+	}
+	c.CallSites(n)
+	c.Floor("C01.LITERAL", 3)
 }
 
 // ruleC01TimeEquality: instants are compared with time.Time.Equal/Before/After, never with == or !=
@@ -134,8 +197,6 @@ func ruleC01NotOutermost(c *Ctx) {
 	}
 	c.Floor("C01.NOTOUTER", 2)
 }
-
-
 
 // opConsts returns the BinaryOp constants by name.
 func opConsts(c *Ctx) map[string]int64 {
@@ -345,6 +406,70 @@ func ruleC01Tables(c *Ctx) {
 
 // binaryOracle: left/right are the pointer results of node.left/right.Eval*(s).
 func binaryOracle(fn *ssa.Function, opFld *types.Var, op int64, n1, n2 bool, ord int, contains bool) Oracle {
+	// the two operands as symbols, ordered by ord, for comparisons that happen in helpers or table entries
+	decideSymCompare = func(a, b AV, tok token.Token) (bool, bool) {
+		o := 0
+		switch {
+		case a.Sym == "v0" && b.Sym == "v1":
+			o = ord
+		case a.Sym == "v1" && b.Sym == "v0":
+			o = -ord
+		default:
+			return false, false
+		}
+		switch tok {
+		case token.LSS:
+			return o < 0, true
+		case token.GTR:
+			return o > 0, true
+		case token.LEQ:
+			return o <= 0, true
+		case token.GEQ:
+			return o >= 0, true
+		case token.EQL:
+			return o == 0, true
+		case token.NEQ:
+			return o != 0, true
+		}
+		return false, false
+	}
+	decideSymCall = func(callee *types.Func, args []AV) (AV, bool) {
+		if callee.Pkg() == nil || len(args) != 2 || args[0].Kind != "sym" || args[1].Kind != "sym" {
+			return AV{}, false
+		}
+		i, j := -1, -1
+		for k, n := range []string{"v0", "v1"} {
+			if args[0].Sym == n {
+				i = k
+			}
+			if args[1].Sym == n {
+				j = k
+			}
+		}
+		if i < 0 || j < 0 || i == j {
+			return AV{}, false
+		}
+		switch callee.Pkg().Path() {
+		case "strings":
+			if callee.Name() == "Contains" && i == 0 && j == 1 {
+				return avBool(contains), true
+			}
+		case "time":
+			o := ord
+			if i == 1 {
+				o = -o
+			}
+			switch callee.Name() {
+			case "Before":
+				return avBool(o < 0), true
+			case "After":
+				return avBool(o > 0), true
+			case "Equal":
+				return avBool(o == 0), true
+			}
+		}
+		return AV{}, false
+	}
 	side := func(v ssa.Value) int {
 		if evalCallOnField(v, fn, "left") {
 			return 0
@@ -656,37 +781,87 @@ func ruleC01Ops(c *Ctx) {
 	fi := ComputeFacts(vt)
 	push := p.Method("ast", "ToBoltListener", "pushStack")
 	binOp := p.Named("ast", "BinaryOp")
-	// (a) every operator token has a case pushing a BinaryOp
-	pushedUnder := map[int64]bool{}
-	for _, call := range callsIn(vt) {
-		if !isCallTo(call, push) {
-			continue
-		}
-		mi, ok := call.Common().Args[1].(*ssa.MakeInterface)
-		if !ok || namedOf(mi.X.Type()) != binOp {
-			continue
-		}
-		// token constants that lead here: walk predecessor edges for tokenType == K facts (multi-case
-		// clauses merge, so look at every edge into this block's dominator chain)
-		for _, b := range vt.Blocks {
-			for _, s := range b.Succs {
-				for f := range fi.edgeFacts(b, s) {
-					bo, isB := f.V.(*ssa.BinOp)
-					if f.Kind == "true" && f.Pol && isB && bo.Op == token.EQL {
-						if k, isK := bo.Y.(*ssa.Const); isK && k.Value != nil {
-							if s == call.Block() || s.Dominates(call.Block()) {
-								v, _ := constant.Int64Val(k.Value)
-								pushedUnder[v] = true
-							}
+	// (a) every operator token pushes a BinaryOp — decided by running VisitTerminal for each operator token
+	// type (and, for the word operators, for both answers of the "not" test): exactly one operator is
+	// pushed, and for a word operator it is the plain resp. the negated operator of that word.  The
+	// dispatch may be a switch, an if-chain or a constant table.
+	_ = fi
+	ops0 := opConsts(c)
+	strContains := p.ExtFunc("strings", "Contains")
+	strHasPrefix := p.ExtFunc("strings", "HasPrefix")
+	type tokRow struct {
+		tok          string
+		plain, neg   string
+		wordOperator bool
+	}
+	for _, row := range []tokRow{{"LT", "", "", false}, {"GT", "", "", false}, {"EQ", "", "", false},
+		{"IN", "In", "NotIn", true}, {"BETWEEN", "Between", "NotBetween", true}, {"CONTAINS", "Contains", "NotContains", true}, {"ICONTAINS", "IContains", "NotIContains", true}} {
+		k := constInt(p.Obj("zitiql", "ZitiQlLexer"+row.tok))
+		construct := "(*ast.ToBoltListener).VisitTerminal: token " + row.tok
+		ok, why := true, ""
+		undecided := ""
+		for _, negated := range []bool{false, true} {
+			if !row.wordOperator && negated {
+				continue
+			}
+			oracle := func(v ssa.Value) (AV, bool) {
+				if call, isCall := v.(*ssa.Call); isCall {
+					if invokeNamed(call, "GetTokenType") {
+						return avInt(k), true
+					}
+					if invokeNamed(call, "HasError") {
+						return avBool(false), true
+					}
+					if isCallTo(call, strContains) || isCallTo(call, strHasPrefix) {
+						return avBool(negated), true
+					}
+				}
+				if u, isU := v.(*ssa.UnOp); isU && u.Op == token.MUL {
+					if f, _ := loadedField(u); f != nil {
+						if bt, isB := f.Type().Underlying().(*types.Basic); isB && bt.Kind() == types.Bool {
+							return avBool(false), true // debug printing switches
 						}
 					}
 				}
+				return AV{}, false
+			}
+			evs, err := DecideCalls(vt, oracle, func(ci ssa.CallInstruction) bool { return isCallTo(ci, push) })
+			if err != "" {
+				undecided = err
+				continue
+			}
+			nOps := 0
+			for _, ev := range evs {
+				args := ev.Call.Common().Args
+				mi, isMI := args[len(args)-1].(*ssa.MakeInterface)
+				if !isMI || namedOf(mi.X.Type()) != binOp {
+					continue
+				}
+				nOps++
+				if row.wordOperator {
+					wantName := row.plain
+					if negated {
+						wantName = row.neg
+					}
+					got := ev.Args[len(ev.Args)-1]
+					if got.Kind != "const" {
+						undecided = "the operator pushed for " + row.tok + " is not a decided constant"
+						continue
+					}
+					if g, _ := constant.Int64Val(got.C); g != ops0[wantName] {
+						ok, why = false, fmt.Sprintf("token %s with negation=%v pushes operator %d, expected BinaryOp%s (%d): the (negated) word operator is turned into a different operator", row.tok, negated, g, wantName, ops0[wantName])
+					}
+				}
+			}
+			if undecided == "" && nOps != 1 {
+				ok, why = false, fmt.Sprintf("operator token %s (negation=%v) pushes %d operators instead of one: the following Exit*Op would mis-read the stack", row.tok, negated, nOps)
 			}
 		}
-	}
-	for _, tok := range []string{"LT", "GT", "EQ", "IN", "BETWEEN", "CONTAINS", "ICONTAINS"} {
-		k := constInt(p.Obj("zitiql", "ZitiQlLexer"+tok))
-		c.Check(pushedUnder[k], "C01.OPS", "(*ast.ToBoltListener).VisitTerminal: token "+tok, p.Pos(vt.Pos()), "the operator token pushes a BinaryOp", "operator token "+tok+" has no case that pushes an operator: the following Exit*Op would mis-read the stack")
+		if ok && undecided != "" {
+			c.Undecided("C01.OPS", construct, p.Pos(vt.Pos()), "VisitTerminal could not be evaluated for this token: "+undecided)
+			continue
+		}
+		c.Check(ok, "C01.OPS", construct, p.Pos(vt.Pos()), "the operator token pushes exactly one BinaryOp (word operators: the plain / negated operator of that word)", why)
 	}
 	// (b) spellings the grammar can produce for LT/GT/EQ are keys of binaryOpValues
 	g4, err := os.ReadFile(filepath.Join(p.Root, "zitiql", "ZitiQl.g4"))
